@@ -2,6 +2,19 @@
 import importlib, inspect, json, pkgutil, sys, traceback
 
 
+def ftype(v):
+    for a in ("enum", "message"):
+        try:
+            t = getattr(v, a, None)
+        except Exception as e:  # noqa
+            return ["?", f"{type(e).__name__}: {e}"]
+        if t is not None:
+            if isinstance(t, str):
+                return ["", t.split(".")[-1]]
+            return [t.__module__, t.__qualname__]
+    return None
+
+
 def main():
     q = json.load(sys.stdin)
     sys.path.insert(0, q["root"])
@@ -29,6 +42,7 @@ def main():
         fields = getattr(getattr(cls, "_meta", None), "fields", {})
         out["messages"][name] = {"attrs": sorted(fields.keys()),
                                  "json": {k: v.descriptor.json_name if hasattr(v, "descriptor") else None for k, v in fields.items()},
+                                 "ftypes": {k: ftype(v) for k, v in fields.items()},
                                  "module": cls.__module__}
     out["clients"] = {}
     for cname in q.get("clients", []):
